@@ -416,3 +416,29 @@ Proof. repeat split. Qed.
 Lemma route_pkt_replies (t : table) (pend : list str) (p : pkt) :
   snd (route_pkt t pend p) = replies (fst (do_route t pend p)).
 Proof. reflexivity. Qed.
+
+(* a response for a request whose context has ended is routed like any other packet *)
+Lemma ended_routed (t : table) (pend ended : list str) (p : pkt) :
+  pending_hit pend p = false ->
+  let '(ev, pend', ended') := do_route_e t pend ended p in
+  ev = fst (do_route t pend p) /\ pend' = pend /\ deliveries ev = [] /\
+  (pending_hit ended p = true ->
+     exists a ns any, p = PIQ a ns any /\ forall x, In x ended' <-> In x ended /\ x <> a_id a) /\
+  (pending_hit ended p = false -> ended' = ended).
+Proof.
+  intros Hp. unfold do_route_e. rewrite Hp.
+  pose proof (not_pending_no_delivery t pend p Hp) as [Hd _].
+  assert (E : fst (do_route t pend p) = route_ordinary t p).
+  { unfold do_route. destruct p as [a|a|a ns any|k]; try reflexivity. rewrite Hp. reflexivity. }
+  rewrite E in Hd.
+  destruct (pending_hit ended p) eqn:He.
+  - split; [symmetry; exact E|]. split; [reflexivity|]. split; [exact Hd|]. split; [|discriminate].
+    intros _. apply pending_hit_iff in He as [a [ns [any [Ep _]]]]. subst p.
+    exists a, ns, any. split; [reflexivity|]. intros x. apply remove_id_spec.
+  - split; [symmetry; exact E|]. split; [reflexivity|]. split; [exact Hd|]. split; [discriminate|reflexivity].
+Qed.
+
+Lemma ended_live_first (t : table) (pend ended : list str) (p : pkt) :
+  pending_hit pend p = true ->
+  do_route_e t pend ended p = (fst (do_route t pend p), snd (do_route t pend p), ended).
+Proof. intros Hp. unfold do_route_e. rewrite Hp. reflexivity. Qed.
